@@ -10,7 +10,7 @@ THEOREMS = [
     'C10_syntax_xml', 'C10_syntax_soap', 'C10_syntax_json', 'C10_syntax_yaml_refuted', 'C10_syntax_yaml_partial',
     'C10_syntax_msgpack', 'C10_leaf_total', 'C10_xml_total', 'C10_soap_total', 'C10_dict_total',
     'C10_dict_fuel_sufficient', 'C10_xml_wsgi_total', 'C10_soap_wsgi_total', 'C10_dict_wsgi_total',
-    'C10_fault_means_not_called', 'C10_get_out_object_guard', 'C10_wsgi_charset',
+    'C10_fault_means_not_called', 'C10_get_out_object_guard', 'C10_wsgi_charset', 'C10_binary_total',
 ]
 
 # what each parser library may raise, as assumed by the theorems (C10/Proofs.v XML_FIRST,
@@ -154,7 +154,7 @@ def oracle_campaign(check, sv, which, desc):
     def run(req, origin):
         t0 = time.time()
         obs = check_request(check, sv, which, req, origin)
-        o = origin.split(',')[0].split('(')[0]
+        o = origin.replace(', cross output', '').split('(')[0]
         n, t = spent.get(o, (0, 0.0))
         spent[o] = (n + 1, t + time.time() - t0)
         k = (req['protocol'], obs.kind if obs.kind != 'fault' else 'fault:' + str(obs.code))
@@ -250,8 +250,11 @@ def oracle_campaign(check, sv, which, desc):
                 at_place(m, path, multi, lit, 'leaf sweep', (None, 'soft'))
             # length as a dimension: 1, 99, 100, 101, 1000, 70000 characters
             for lit in G.long_literals(rng, k, every=not quick):
-                full = G.is_binary_kind(k) or not quick
-                vs = (None, 'soft') if full else (rng.choice((None, 'soft')),)
+                # quick: binary parameters in every protocol with every validator, binary members of a nested object
+                # with every validator in one protocol of each family, the other kinds in one of each
+                binary = G.is_binary_kind(k)
+                full = not quick or (binary and len(path) == 1)
+                vs = (None, 'soft') if (full or binary) else (rng.choice((None, 'soft')),)
                 at_place(m, path, multi, lit, 'leaf sweep, length %d' % len(lit), vs, some=not full)
     # 1c. the same for the single argument of every bare method
     from lxml import etree as _et
@@ -259,18 +262,22 @@ def oracle_campaign(check, sv, which, desc):
         t, multi = (ty[1], True) if ty[0] == 'arr' else (ty, False)
         k = 'enum' if t[0] == 'enum' else t[1] if t[0] == 'leaf' else None
         lits = (list(G.KIND_JUNK.get(k, [])) if k else []) + (G.GENERAL_JUNK if not quick else rng.sample(G.GENERAL_JUNK, 8))
+        n_short = len(lits)
         if k:
             lits += G.long_literals(rng, k, every=not quick)
-        for lit in lits:
+        for li, lit in enumerate(lits):
             val = [lit] if multi else lit
-            for p in ('json', 'yaml', 'msgpack') + D.CROSS:
+            # quick: the long literals of the non-binary kinds in one dict protocol and one XML protocol
+            some = quick and li >= n_short and not G.is_binary_kind(k)
+            for p in ((rng.choice(('json', 'yaml', 'msgpack')),) if some else ('json', 'yaml', 'msgpack') + D.CROSS):
                 ip = D.in_proto(p)
                 b = G.render_dict(ip, G.msgpack_top({m: val}) if ip == 'msgpack' else {m: val})
                 if b is not None:
                     for v in (None, 'soft'):
                         run(dict(protocol=p, validator=v, transport='server', body=b), 'bare argument sweep')
             if isinstance(lit, (str, int, float, bool)) or lit is None:
-                for p, ns in (('xml', None), ('soap11', G.S11), ('soap12', G.S12)):
+                xps = (('xml', None), ('soap11', G.S11), ('soap12', G.S12))
+                for p, ns in ((rng.choice(xps),) if some else xps):
                     try:
                         b = _et.tostring(G.render_xml(desc, m, G.Bare(val, ty), ns))
                     except Exception:
